@@ -145,14 +145,14 @@ func gen(rng *h.Rng, tier string, emit func(string)) {
 	}
 	// --- F.3: all sequence lengths 0..1100 with random entropy
 	//     (identity input for every length; inputs with duplicates / arbitrary values for every
-	//     third length in the quick tier, every length in the thorough tier)
+	//     length up to 64 and every fourth length above in the quick tier, every length in the thorough tier)
 	kinds := 3
 	if thorough {
 		kinds = 9
 	}
 	for k := 0; k < kinds; k++ {
 		for n := 0; n <= 1100; n++ {
-			if !thorough && k > 0 && n > 64 && n%3 != k {
+			if !thorough && k > 0 && n > 64 && n%4 != k {
 				continue
 			}
 			emit("shuf " + h.Hex(entropy(rng)) + " " + csv32(seqKind(rng, n, k%3)))
@@ -187,7 +187,10 @@ func gen(rng *h.Rng, tier string, emit func(string)) {
 		}
 	}
 	tinyEpochs := []uint64{0, 1, 2, 3, 1000, 357913940, 357913941} // the last ones hold slots up to 2^32-1
-	fullEpochs := []uint64{0, 1, 2, 1000, 7158277, 7158278}        // 7158278*600 .. 2^32-1
+	fullEpochs := []uint64{0, 1, 7158278}                          // 7158278*600 .. 2^32-1
+	if thorough {
+		fullEpochs = append(fullEpochs, 2, 3, 1000, 7158277)
+	}
 	epochsOf("tiny", 12, tinyEpochs, 40*mul, "perms")
 	epochsOf("full", 600, fullEpochs, mul, "perms")
 	epochsOf("tiny", 12, []uint64{0, 5}, 10*mul, "gas")
